@@ -1,5 +1,5 @@
 """Shared plumbing of the feature checks (C09-C17): generated programs opened in the real server, crash attribution."""
-import random
+import random, re
 from .core import Part, server_bin, load_findings
 from .client import Server, ServerDied, Timeout, FrameError, tdp, panic_signature
 from . import gen, layout
@@ -25,6 +25,29 @@ def report(part):
     """how the documents of this worker reached the server (evidence)"""
     for k, v in ARRIVALS.items(): part.cnt("documents_" + k, v)
     ARRIVALS.clear()
+
+
+PRIME_DOC = [("textDocument/semanticTokens/full", {}), ("textDocument/foldingRange", {}), ("textDocument/formatting", {"options": {"tabSize": 4, "insertSpaces": True}})]
+PRIME_POS = ["textDocument/hover", "textDocument/definition", "textDocument/declaration", "textDocument/typeDefinition", "textDocument/implementation", "textDocument/references",
+             "textDocument/prepareRename", "textDocument/completion", "textDocument/signatureHelp"]
+
+
+def prime(srv, uri, text, r):
+    """the client asks about the EARLIER version of the document before it changes it (as an editor does all the time): whatever
+    the server remembers from answering must not leak into the answers for the later text. The answers are discarded."""
+    T = layout.Text(text)
+    for m, extra in r.sample(PRIME_DOC, r.choice([1, 2, 3])):
+        q = {"textDocument": {"uri": uri}}; q.update(extra); srv.request(m, q, 20)
+    words = [mm.start() for mm in re.finditer(r"[A-Za-z_][A-Za-z_0-9]*|\(|,", text)]
+    for _ in range(r.choice([1, 2, 4])):
+        if not words: break
+        i = r.choice(words) + r.choice([0, 0, 1])
+        l, c = T.pos(len(text[:i].encode()))
+        for m in r.sample(PRIME_POS, r.choice([1, 2, 4])):
+            q = tdp(uri, l, c)
+            if m.endswith("references"): q["context"] = {"includeDeclaration": True}
+            srv.request(m, q, 20)
+    _arr("primed_with_requests_on_the_earlier_version")
 
 
 def arrive(srv, uri, text, salt, p=.33, prefer=None):
@@ -61,7 +84,9 @@ def arrive(srv, uri, text, salt, p=.33, prefer=None):
                 t0 = t00
             from . import lspmodel
             if lspmodel.apply_changes(t0, changes) == text:          # (the harness's own arithmetic is checked against the LSP model)
-                srv.open(uri, t0); srv.change(uri, changes, 1)
+                srv.open(uri, t0)
+                if r.random() < .4: prime(srv, uri, t0, r)
+                srv.change(uri, changes, 1)
                 _arr("reached_by_one_edit"); return True
     _arr("opened_fresh"); srv.open(uri, text)
     return False
@@ -76,6 +101,7 @@ def arrive_chain(srv, uri, text, r, prefer=None):
     if r.random() < .1:
         other = text[:len(text) // 2] if r.random() < .5 else text + text[len(text) // 3:]
         srv.open(uri, other)
+        if r.random() < .5: prime(srv, uri, other, r)
         if r.random() < .5:
             try: srv.change(uri, [{"text": other + " "}], 1)
             except Exception: pass
@@ -109,12 +135,17 @@ def arrive_chain(srv, uri, text, r, prefer=None):
         # ... the notification ends with a full-text replacement (ranged changes that altered the length in front of it)
         batch = changes + [{"text": text}] if r.random() < .5 else changes[:-1] + [{"text": lspmodel.apply_changes(back[0][0], changes[:-1]) + " "}, {"text": text}]
         if lspmodel.apply_changes(back[0][0], batch) != text: return False
-        srv.open(uri, back[0][0]); srv.change(uri, batch, 1)
+        srv.open(uri, back[0][0])
+        if r.random() < .4: prime(srv, uri, back[0][0], r)
+        srv.change(uri, batch, 1)
         _arr("reached_by_batch_ending_in_full_text"); return True
     srv.open(uri, back[0][0])
+    if r.random() < .4: prime(srv, uri, back[0][0], r)
     if len(changes) > 1 and r.random() < .4: srv.change(uri, changes, 1)
     else:
-        for v, ch in enumerate(changes): srv.change(uri, [ch], v + 1)
+        for v, ch in enumerate(changes):
+            srv.change(uri, [ch], v + 1)
+            if v + 1 < len(changes) and r.random() < .2: prime(srv, uri, back[v + 1][0], r)
     _arr("reached_by_chain_of_%d" % len(changes)); return True
 
 
